@@ -112,14 +112,21 @@ def dsl_aggs(ctx, b, depth, seen):
     seen.add(b.id)
     for _, _, st in b.all_stmts():
         if st[0] == "=" and st[2][0] == "agg" and st[2][1].get("k") == "adt" and st[2][1]["adt"].startswith("ironplc_dsl::"):
-            if b.f["crate"] == "ironplc_parser" and len(st) > 3 and st[3][2]:
+            if b.f["crate"] == "ironplc_parser" and len(st) > 3 and st[3][2] and "::__parse_" in b.id:
                 continue
             out.add((st[2][1]["adt"], st[2][1]["variant"]))
     if depth > 0:
         for c in b.calls():
-            if c.callee and c.callee.startswith("ironplc_dsl::") and "::fmt" not in c.callee:
+            if not c.callee or "::fmt" in c.callee:
+                continue
+            if c.callee.startswith("ironplc_dsl::"):
                 for cb in ctx.prog.get(c.callee):
                     if cb.f["crate"] == "ironplc_dsl" and not cb.f.get("exp"):
+                        out |= dsl_aggs(ctx, cb, depth - 1, seen)
+            elif c.callee.startswith("ironplc_parser::") and "::__parse_" not in c.callee:
+                # a helper function of the parser that the action calls to build (or validate and build) the node
+                for cb in ctx.prog.get(c.callee):
+                    if cb.f["crate"] == "ironplc_parser" and not cb.f.get("exp"):
                         out |= dsl_aggs(ctx, cb, depth - 1, seen)
     return out
 
